@@ -121,6 +121,76 @@ fn c19() {
     drop(m);
     println!("C19 directory after drop: {:?}", ls(dir.path()));
 }
+#[cfg(feature = "wide")]
+fn c26replay() {
+    let dir = tempfile::tempdir().unwrap();
+    let p = dir.path().join("a.mv2");
+    let mut m = Memvid::create(&p).unwrap();
+    // two puts and a delete before the session: WAL sequences run ahead of frame ids
+    m.put_bytes(b"first document").unwrap();
+    m.put_bytes(b"second document").unwrap();
+    m.commit().unwrap();
+    m.delete_frame(0).unwrap();
+    m.start_session(Some("s".to_string()), None).unwrap();
+    let id = m.put_bytes(b"third document, recorded").unwrap();
+    let sess = m.end_session().unwrap();
+    println!("C26replay put returned sequence {} ; next_frame_id-1 (the frame's id) = {}", id, m.next_frame_id() - 1);
+    for a in &sess.actions { println!("C26replay recorded action {:?} affected {:?}", a.action_type, a.affected_frames); }
+}
+#[cfg(feature = "wide")]
+fn c18replay() {
+    let dir = tempfile::tempdir().unwrap();
+    let p = dir.path().join("a.mv2");
+    { let mut m = Memvid::create(&p).unwrap(); m.put_bytes(b"hello read only world").unwrap(); m.commit().unwrap(); }
+    let before = std::fs::read(&p).unwrap();
+    {
+        let mut m = Memvid::open_read_only(&p).unwrap();
+        m.start_session(Some("s".to_string()), None).unwrap();
+        let _ = m.search(req("hello", 3));
+        let s = m.end_session();
+        println!("C18replay end_session ok={}", s.is_ok());
+        let r = m.save_replay_sessions();
+        println!("C18replay save_replay_sessions on a read-only handle: {:?}", r.as_ref().map(|_| ()).map_err(|e| e.to_string()));
+        let c = m.commit();
+        println!("C18replay commit on the read-only handle: {:?}", c.map_err(|e| e.to_string()));
+    }
+    let after = std::fs::read(&p).unwrap();
+    let diff = before.iter().zip(after.iter()).filter(|(a,b)| a!=b).count();
+    println!("C18replay file changed: {} (len {} -> {}, differing bytes in common prefix {})", before != after, before.len(), after.len(), diff);
+    let re = Memvid::open_read_only(&p);
+    println!("C18replay reopen read-only afterwards ok={} {:?}", re.is_ok(), re.err().map(|e| e.to_string()));
+    let v = Memvid::verify(&p, false);
+    println!("C18replay verify: {:?}", v.map(|r| r.overall_status).map_err(|e| e.to_string()));
+}
+#[cfg(feature = "wide")]
+fn c02replay() {
+    let dir = tempfile::tempdir().unwrap();
+    let p = dir.path().join("a.mv2");
+    let mut m = Memvid::create(&p).unwrap();
+    m.put_bytes(b"hello crash world").unwrap(); m.commit().unwrap();
+    m.start_session(Some("s".to_string()), None).unwrap();
+    let _ = m.search(req("hello", 3));
+    m.end_session().unwrap();
+    m.save_replay_sessions().unwrap();
+    // process dies here: everything written so far persists (process-crash model), nothing else happens
+    let crash = dir.path().join("crash.mv2");
+    std::fs::copy(&p, &crash).unwrap();
+    std::mem::forget(m);
+    let r = Memvid::open_read_only(&crash);
+    println!("C02replay open_read_only of the crash image: ok={} {:?}", r.is_ok(), r.as_ref().err().map(|e| e.to_string()));
+    if let Ok(m2) = r { println!("C02replay frames visible: {}", m2.frame_count()); }
+    let crash2 = dir.path().join("crash2.mv2");
+    std::fs::copy(&crash, &crash2).unwrap();
+    let r = Memvid::open(&crash2);
+    println!("C02replay open (writable) of the crash image: ok={} {:?}", r.is_ok(), r.as_ref().err().map(|e| e.to_string()));
+    if let Ok(m2) = r { println!("C02replay frames visible: {}", m2.frame_count()); }
+}
+#[cfg(not(feature = "wide"))]
+fn c02replay() { println!("needs --features wide"); }
+#[cfg(not(feature = "wide"))]
+fn c18replay() { println!("needs --features wide"); }
+#[cfg(not(feature = "wide"))]
+fn c26replay() { println!("needs --features wide"); }
 #[cfg(not(feature = "wide"))]
 fn c19() { println!("C19 needs --features wide"); }
 
@@ -341,5 +411,5 @@ fn c08() {
 
 fn main() {
     let which = std::env::args().nth(1).unwrap_or_default();
-    match which.as_str() { "c05"=>c05(), "c26"=>c26(), "c20"=>c20(), "c20blob"=>c20blob(), "c07"=>c07(), "c39"=>c39(), "c19"=>c19(), "c32"=>c32(), "c11"=>c11(), "c17"=>c17(), "c08"=>c08(), "c29"=>c29(), "c14"=>c14(), "c09"=>c09(), "c18"=>c18(), "c23"=>c23(), "c16"=>c16(), "c40"=>c40(), "c24"=>c24(), "c15"=>c15(), "c22"=>c22(), _=>{ c05(); c26(); c20(); c11(); c17(); } }
+    match which.as_str() { "c05"=>c05(), "c26"=>c26(), "c20"=>c20(), "c20blob"=>c20blob(), "c07"=>c07(), "c39"=>c39(), "c19"=>c19(), "c26replay"=>c26replay(), "c18replay"=>c18replay(), "c02replay"=>c02replay(), "c32"=>c32(), "c11"=>c11(), "c17"=>c17(), "c08"=>c08(), "c29"=>c29(), "c14"=>c14(), "c09"=>c09(), "c18"=>c18(), "c23"=>c23(), "c16"=>c16(), "c40"=>c40(), "c24"=>c24(), "c15"=>c15(), "c22"=>c22(), _=>{ c05(); c26(); c20(); c11(); c17(); } }
 }
